@@ -456,14 +456,14 @@ class URL:
 
         path = PATH_QUOTER(path) if path else path
         if path and self._netloc:
-            if "." in path:
-                path = normalize_path(path)
             if path[0] != "/":
                 msg = (
                     "Path in a URL with authority should "
                     "start with a slash ('/') if set"
                 )
                 raise ValueError(msg)
+            if "." in path:
+                path = normalize_path(path)
 
         self._path = path
         if not query and query_string:
